@@ -1,21 +1,20 @@
 (** C09 — A written shard reads back every document and all metadata.
     Models: Model/Format.v (ShardBuilder.Add/Write, delta coding, sections, TOC, reader), Model/Btree.v (ngram b-tree).
-    Proofs: Proofs/FormatCodec.v, Proofs/Btree.v.  Constants come from Generated/FormatConsts.v (regenerated from /repo).
+    Proofs: Proofs/FormatCodec.v, Proofs/Btree.v, Proofs/FormatLayout.v, Proofs/FormatToc.v, Proofs/FormatLoad.v.
+    Constants come from Generated/FormatConsts.v (regenerated from /repo).
 
-    FULL STATEMENT AIMED AT (see NOTES.md for what is proved / what is tied by the byte-exact correspondence only):
-      forall docs repos opaque, |file| < 2^32 ->
-        load_shard (mem_file (write_shard next (add_repos repos) opaque)) = Ok d /\
-        forall i, doc_view d i = normalised document i   /\   forall ngram g, Get g = posting list of g.
-    Proved here, for ALL inputs: the codec layer (every varint / delta list / document-section list decodes to what
-    was encoded, including unsorted lists through the uint32/uint16 wrap-around), the b-tree layer (for every
-    number of ascending ngrams, find returns the bucket holding the key), the layout layer (every section that Write
-    emits is read back from the record stored for it; every item of a compound section through its relative index)
-    and the document-level read-back C09_document_readback_partial (name, content, symbol sections, newline index of
-    every document of every builder state).  Still NOT a theorem: that readTOCSections/readIndexData hand exactly the
-    written records to the accessors (parsing of the tagged TOC) and the builder-side normalisation (add_doc) being
-    composed into one end-to-end statement — both are covered by the byte-exact correspondence and the
-    model-internal read-back check of the runner on every generated shard. *)
-From ZV Require Import Lib.Base Lib.Varint Generated.FormatConsts Model.Format Model.Btree Proofs.FormatCodec Proofs.Btree Proofs.FormatLayout Proofs.BtreeGet Model.DocCheck Proofs.DocCheck.
+    END-TO-END STATEMENT (C09_read_write below): for every builder state b satisfying the invariant wf_b (list lengths
+    agree, stored numbers fit their uint32/uint64/uint16 fields), all opaque blobs and both format versions, with
+    |file| < 2^32:
+        load_shard (write_shard next b o) = Ok d   and   d shows exactly b
+    (every document's name, content, newline index, symbol sections through the per-document accessors; branch masks,
+    sub-repositories, repositories, checksums, languages, categories, rune tables, symbol tables; the ngram sections and
+    posting lists in the form C09_btree_get_spec consumes).  The parsing of the tagged TOC is the theorem
+    C09_toc_parse.  Also proved for ALL inputs: the codec layer, the b-tree layer, the layout layer.
+    Composition with ShardBuilder.Add: C09_add_wf shows that every state reached by add_repos from the empty builder
+    satisfies wf_b (see there for the hypotheses on the inputs), which closes the chain documents -> Add -> Write ->
+    NewSearcher -> accessors. *)
+From ZV Require Import Lib.Base Lib.Varint Generated.FormatConsts Model.Format Model.Btree Proofs.FormatCodec Proofs.Btree Proofs.FormatLayout Proofs.FormatToc Proofs.FormatLoad Proofs.FormatAdd Proofs.BtreeGet Model.DocCheck Proofs.DocCheck.
 Open Scope N_scope.
 
 (** binary.Uvarint (binary.PutUvarint x ++ rest) = (x, bytes consumed) for every uint64. *)
@@ -108,25 +107,63 @@ Theorem C09_compound_section_readback : forall secs k t items, nth_error secs k 
 Proof. exact compound_section_readback. Qed.
 Print Assumptions C09_compound_section_readback.
 
-(** Document level (partial: see the header): for EVERY builder state, opaque blobs and format version, document i's
-    name, content, symbol sections and newline index are read back exactly from the written file through the
-    accessors' path (relative index -> IndexFile.Read -> delta decoders). *)
-Theorem C09_document_readback_partial : forall next b o i name content secs,
-  let file := write_shard next b o in
-  let f := mem_file file in
-  nlen file < W32 ->
-  nth_error (b_contents b) i = Some content -> nth_error (b_names b) i = Some name ->
-  nth_error (b_docSections b) i = Some secs -> Forall sec_ok secs -> nlen secs < W32 -> nlen content < W32 ->
-  exists coff noff soff loff,
-    let ri items off := relative_index (item_offsets off items) (nlen (concat items)) in
-    read_item f coff (ri (b_contents b) coff) (N.of_nat i) = Ok content
-    /\ read_item f noff (ri (b_names b) noff) (N.of_nat i) = Ok name
-    /\ (do blob <- read_item f soff (ri (map marshal_doc_sections (b_docSections b)) soff) (N.of_nat i);
-        unmarshal_doc_sections blob) = Ok secs
-    /\ (do blob <- read_item f loff (ri (map (fun c => to_sized_deltas (newlines_indices c)) (b_contents b)) loff) (N.of_nat i);
-        from_sized_deltas blob) = Ok (newlines_indices content).
-Proof. exact document_readback. Qed.
-Print Assumptions C09_document_readback_partial.
+(** readHeader + readTOCSections applied to the bytes Write produced return, for every entry of sectionsTaggedList,
+    exactly the record laid out for that tag (zero record for sections never written; kind-1 compound sections with
+    their offset table loaded) — for every section list whose kinds agree with the generated tag list. *)
+Theorem C09_toc_parse : forall secs, nlen (write_file secs) < W32 -> secs_kinds_ok secs ->
+  read_toc (mem_file (write_file secs)) [] = Ok (parsed_toc secs).
+Proof. exact read_toc_sections. Qed.
+Print Assumptions C09_toc_parse.
+
+(** ... and the sections ShardBuilder.Write emits satisfy that hypothesis, in both format versions *)
+Theorem C09_shard_sections_ok : forall next b o,
+  secs_kinds_ok (shard_sections next b o) /\ uniq_tags (map fst (shard_sections next b o)) = true.
+Proof. intros. split; [apply shard_sections_kinds|apply shard_sections_uniq]. Qed.
+Print Assumptions C09_shard_sections_ok.
+
+(** End to end over the written file: NewSearcher on write_shard's bytes succeeds and the loaded shard shows exactly the
+    builder state (shard_view_ok: per-document accessors fileName / readContents / readNewlines / readDocSections,
+    metadata tables, symbol tables, ngram sections) — every well-formed builder state, all opaque blobs, both versions. *)
+Theorem C09_read_write_state : forall next b o,
+  nlen (write_shard next b o) < W32 -> wf_b next b -> Forall (Forall sec_ok) (b_docSections b) ->
+  exists d, load_shard (mem_file (write_shard next b o)) next = Ok d /\ shard_view_ok next b o (write_shard next b o) d.
+Proof. exact read_write_sections. Qed.
+Print Assumptions C09_read_write_state.
+
+(** ShardBuilder.Add keeps the invariant: every builder state reached from the empty builder by adding repositories
+    (<= 64 branches each, repository index < 2^16) and documents (sub-repository index and symbol offsets in uint32
+    range; documents whose Add fails are dropped) satisfies binv, and binv with |file| < 2^32 gives wf_b. *)
+Theorem C09_add_wf : forall next repos o, nlen repos <= W16 -> Forall repo_ok repos ->
+  binv (add_repos repos 0 b_empty)
+  /\ (nlen (write_shard next (add_repos repos 0 b_empty) o) < W32 -> wf_b next (add_repos repos 0 b_empty)).
+Proof.
+  intros next repos o Hn Hok.
+  assert (Hb : binv (add_repos repos 0 b_empty)) by (apply add_repos_inv; [lia|exact Hok|exact binv_empty]).
+  split; [exact Hb|]. intros Hlt. exact (binv_wf next _ o Hb Hlt).
+Qed.
+Print Assumptions C09_add_wf.
+
+(** C09_read_write — documents -> Add -> Write -> NewSearcher -> accessors, for ALL repository/document lists:
+    the shard written for them loads, and what a search reads from it (names, contents — the NOT-INDEXED marker for
+    skipped documents, see doc_content / C09_skip_present —, newline indexes, symbol sections, branch masks,
+    sub-repositories, repositories, checksums, languages, categories, rune and symbol tables, ngram sections) is exactly
+    the state the builder held. *)
+Theorem C09_read_write : forall next repos o,
+  nlen repos <= W16 -> Forall repo_ok repos -> nlen (write_shard next (add_repos repos 0 b_empty) o) < W32 ->
+  exists d, load_shard (mem_file (write_shard next (add_repos repos 0 b_empty) o)) next = Ok d
+            /\ shard_view_ok next (add_repos repos 0 b_empty) o (write_shard next (add_repos repos 0 b_empty) o) d.
+Proof. exact read_write_docs. Qed.
+Print Assumptions C09_read_write.
+
+(** ... and what the builder holds for an accepted document is the document: its name, its normalised content, its
+    sorted symbol sections are appended as they are (add_doc). *)
+Theorem C09_add_doc_stores : forall branches idx b d b', add_doc branches idx b d = Ok b' ->
+  b_names b' = b_names b ++ [di_name d] /\ b_contents b' = b_contents b ++ [doc_content d]
+  /\ b_docSections b' = b_docSections b ++ [map fst (doc_symrows d)]
+  /\ b_subRepos b' = b_subRepos b ++ [di_subidx d] /\ b_repos b' = b_repos b ++ [idx]
+  /\ exists mask, branch_mask branches (di_branches d) = Some mask /\ b_masks b' = b_masks b ++ [mask].
+Proof. exact add_doc_stores. Qed.
+Print Assumptions C09_add_doc_stores.
 
 (** DocChecker_spec: DocChecker.Check is stateful in the Go code (one checker per Builder, its trigram map is reused);
     in the model the map is explicit state, and for EVERY state left behind by earlier documents the verdict of a
@@ -172,6 +209,20 @@ Example C09_nonvacuous_document :   (* a two-document builder state obtained wit
   /\ b_docSections b = [[(0,3)]; []]
   /\ nlen (write_shard false b (mkOpaque [] [] [] None [123;125] [123;125])) = 1358.
 Proof. vm_compute. repeat split; reflexivity. Qed.
+
+Example C09_nonvacuous_read_write :   (* the hypotheses of C09_read_write hold for the two-document input above, and the shard loads *)
+  let d1 := mkDocIn [97;46;103;111] [102;111;111;10;98;97;114;10] 0 true [(0,3)] [([102],[],[])] [] 0 in
+  let d2 := mkDocIn [98] [0;1] 0 true [] [] [] 0 in
+  let repos := [([], [d1; d2])] in
+  let o := mkOpaque [] [] [] None [123;125] [123;125] in
+  nlen repos <= W16 /\ Forall repo_ok repos /\ nlen (write_shard false (add_repos repos 0 b_empty) o) < W32
+  /\ is_ok (load_shard (mem_file (write_shard false (add_repos repos 0 b_empty) o)) false) = true
+  /\ (do d <- load_shard (mem_file (write_shard false (add_repos repos 0 b_empty) o)) false; read_contents d 0) = Ok [102;111;111;10;98;97;114;10].
+Proof.
+  cbv zeta. split; [vm_compute; discriminate|]. split.
+  - repeat constructor; vm_compute; try reflexivity; discriminate.
+  - split; [vm_compute; reflexivity|]. split; vm_compute; reflexivity.
+Qed.
 
 Example C09_nonvacuous_docchecker :   (* TrigramMax 3: "abcdefgh" has 6 distinct trigrams -> rejected; "abababababab" has 2 -> kept,
                                          also right after the rejected one (the reused map does not matter) *)
